@@ -76,7 +76,7 @@ pub fn case(ctx: &Ctx, w: usize, h: usize, k: u64, rep: &mut Report) {
     let bytes = pic.encode();
     rep.evaluations += 1;
     let coords = || J::obj().set("property", "C13").set("tier", ctx.tier_name()).set("seed", ctx.seed).set("stage", ctx.stage.clone()).set("w", w).set("h", h).set("k", k).set("bytes", if bytes.len() < 3000 { hex(&bytes) } else { String::new() });
-    let mut dec = Dec::new(flavour.sorenson(), false);
+    let mut dec = Dec::new(flavour.sorenson(), flavour.sorenson() && k == 2);
     match dec.decode(&bytes) {
         Outcome::Ok => {}
         o => {
@@ -131,6 +131,33 @@ pub fn case(ctx: &Ctx, w: usize, h: usize, k: u64, rep: &mut Report) {
                 }
                 Outcome::Err(e) => rep.count(&format!("skipped:reshaped:{}", e)),
             }
+        }
+    }
+    // a predicted picture of another size (same width, other height, or the other way round) whose macroblocks
+    // are all not coded: it cannot be predicted and is refused - but if a decoder does accept it, what it
+    // exposes must still be a picture of the size its header states
+    if rng.chance(1, 6) {
+        let (w2, h2) = if rng.chance(1, 2) { (w, if flavour.sorenson() { h + 1 + rng.below(20) as usize } else { h + 4 * (1 + rng.below(5) as usize) }) } else { (if flavour.sorenson() { w + 1 + rng.below(20) as usize } else { w + 4 * (1 + rng.below(5) as usize) }, h) };
+        let mut c2 = gen_cfg(&mut rng, flavour, w2, h2);
+        c2.tr = cfg.tr.wrapping_add(5);
+        let hdr = make_header(&c2, if flavour.sorenson() && rng.chance(1, 2) { 2 } else { 1 }, &mut rng);
+        let n = ((w2 + 15) / 16) * ((h2 + 15) / 16);
+        let keep = if rng.chance(1, 2) { n } else { rng.below(n as u64 + 1) as usize };
+        let p2 = crate::model::syntax::SymPicture { hdr, w: w2, h: h2, mbs: (0..keep).map(|_| crate::model::syntax::SymMb::NotCoded).collect(), stuffing: vec![] };
+        rep.evaluations += 1;
+        let coords2 = || J::obj().set("property", "C13").set("tier", ctx.tier_name()).set("seed", ctx.seed).set("stage", ctx.stage.clone()).set("w", w).set("h", h).set("k", k).set("what", format!("all-skipped predicted picture {}x{}", w2, h2));
+        match dec.decode(&p2.encode()) {
+            Outcome::Ok => {
+                if !pipeline(&dec, w2, h2, c2.quant, rep, &coords2) {
+                    return;
+                }
+                rep.count("resized_skipped_picture_accepted_and_postprocessed");
+            }
+            Outcome::Panic { msg, loc } => {
+                rep.violation(format!("panic@{}", loc), format!("all-skipped {}x{} picture after a {}x{} one panicked: {}", w2, h2, w, h, msg), coords2());
+                return;
+            }
+            Outcome::Err(_) => rep.count("resized_skipped_picture_refused"),
         }
     }
     if rng.chance(1, 3) {
@@ -274,6 +301,7 @@ pub fn run(ctx: &Ctx) -> (Report, String) {
         rep.require("pictures_postprocessed", (maxd * maxd * ks as usize) as u64 * 95 / 100);
         rep.require("p_pictures_postprocessed", 1000);
         rep.require("same_area_reshaped_pictures_postprocessed", 1000);
+        rep.require("resized_skipped_picture_refused", 500);
         for k in ["resized:intra", "resized:predicted-all-intra", "resized:disposable-all-intra"] {
             rep.require(k, 300);
         }
